@@ -59,10 +59,12 @@ func compileToGetCodeSetSlowPath(typeptr uintptr) (*OpcodeSet, error) {
 	if codeSet, exists := opcodeMap[typeptr]; exists {
 		return codeSet, nil
 	}
+	verifCacheGate("miss", typeptr)
 	codeSet, err := newCompiler().compile(typeptr)
 	if err != nil {
 		return nil, err
 	}
+	verifCacheGate("publish", typeptr)
 	storeOpcodeSet(typeptr, codeSet, opcodeMap)
 	return codeSet, nil
 }
